@@ -285,15 +285,23 @@ func genKV(t *rapid.T) KVCase {
 func genCollector(t *rapid.T) ColCase {
 	c := ColCase{Opts: genOpts(t), Init: genInit(t)}
 	cfg := &gen.TreeCfg{Depth: 2, Width: 3, Keys: initKeys}
-	n := 1 + pick(t, "steps", 6)
+	n := 1 + pick(t, "steps", 7)
 	for i := 0; i < n; i++ {
 		var s ColStep
 		k := pick(t, "kind", 20) // 17: neither, 18: config and error, 19: error only, else a config
-		if i > 0 && k < 17 && pick(t, "same", 6) == 5 {
-			// the config object of an earlier step once more
-			s.Same = 1 + pick(t, "which", i)
-			c.Steps = append(c.Steps, s)
-			continue
+		if i > 0 && k < 17 {
+			switch pick(t, "same", 8) {
+			case 6, 7:
+				// the config object of an earlier step once more
+				s.Same = 1 + pick(t, "which", i)
+				c.Steps = append(c.Steps, s)
+				continue
+			case 5:
+				// the owner of an earlier config object changes it
+				s.Touch = 1 + pick(t, "which", i)
+				c.Steps = append(c.Steps, s)
+				continue
+			}
 		}
 		if k != 17 && k != 19 {
 			if pick(t, "toplist", 8) == 7 {
@@ -378,6 +386,7 @@ func genFiles(t *rapid.T) FilesCase {
 		c.Via = "flagset"
 		c.Named = pick(t, "named", 2) == 1
 	}
+	c.Keep = pick(t, "keep", 3) == 2
 	cfg := &gen.TreeCfg{Depth: 2, Width: 3, Keys: initKeys, NoFloat: true}
 	n := 1 + pick(t, "files", 5)
 	loaders := make([]string, 0, n)
